@@ -7,7 +7,8 @@ from collections import OrderedDict
 from fractions import Fraction
 from vlib import coqlit as L
 
-UNOPS_EQ = [["diff", 0], ["copy"], ["pos"], ["add0"], ["mul1"], ["pow", 1], ["poly"]]   # results equal to the operand
+UNOPS_EQ = [["diff", 0], ["copy"], ["pos"], ["add0"], ["mul1"], ["pow", 1], ["poly"],   # results equal to the operand
+            ["rezero", "int"], ["rezero", "frac"], ["rezero", "false"], ["rezero", "float"]]
 UNOPS_ALL = UNOPS_EQ + [["neg"], ["diff", 1], ["diff", 2], ["pow", 2], ["pow", 0], ["pow", -1], ["int"]]
 BINOPS = ["add", "sub", "mul", "call"]
 NEAR = [(-1, -2), (1, 2), (-2, -1), (2, 1), (-1, 1), (Fraction(-1, 2), Fraction(-3, 2)), (-1, -3), (3, 2), (-2, -4)]
@@ -30,19 +31,20 @@ def run_hist(c):
       if t == "new":
         kind, data, ty = op[1], op[2], op[3]
         cont = None
+        zkw = H.zero_kw(op[4] if len(op) > 4 else "default")     # the kind of the polynomial's zero (class (f))
         if kind == "dict":
-          cont = dict((k, H.num(v, ty)) for k, v in data); p = Poly(cont)
+          cont = dict((k, H.num(v, ty)) for k, v in data); p = Poly(cont, **zkw)
         elif kind == "odict":
-          cont = OrderedDict((k, H.num(v, ty)) for k, v in data); p = Poly(cont)
+          cont = OrderedDict((k, H.num(v, ty)) for k, v in data); p = Poly(cont, **zkw)
         elif kind == "list":
-          cont = [H.num(v, ty) for v in data]; p = Poly(cont)
+          cont = [H.num(v, ty) for v in data]; p = Poly(cont, **zkw)
         elif kind == "const":
-          p = Poly(H.num(data, ty))
+          p = Poly(H.num(data, ty), **zkw)
         else:
-          p = Poly()
+          p = Poly(**zkw)
         slots.append(p); conts.append(cont)
       elif t == "mutc":
-        cont, act = conts[op[1]], op[2]
+        cont, act = (conts[op[1]] if op[1] < len(conts) else None), op[2]   # a variable a refused call never created
         try:
           if isinstance(cont, list):
             if act[0] == "set" and cont: cont[act[1] % len(cont)] = H.num(act[2], op[3])
@@ -65,6 +67,7 @@ def run_hist(c):
         elif u[0] == "add0": r = p + 0
         elif u[0] == "mul1": r = p * 1
         elif u[0] == "pow": r = p ** u[1]
+        elif u[0] == "rezero": r = Poly(p, **H.zero_kw(u[1]))     # copy-constructor giving another kind of zero
         else: r = Poly(p)
         slots.append(r); conts.append(None)
       elif t == "bin":
@@ -74,7 +77,7 @@ def run_hist(c):
       elif t == "set":
         slots[op[1]][op[2]] = H.num(op[3], op[4])
       elif t == "hash":
-        ps = [slots[i] for i in op[1]]
+        ps = [slots[i] for i in op[1] if i < len(slots)]   # a variable a refused call never created
         if op[2] == "hash":
           for p in ps: hash(p)
           n = len(set(ps))
@@ -99,7 +102,8 @@ def run_hist(c):
 def _unop_lit(u):
   if u[0] == "diff": return "(UDiff %s)" % L.nat(u[1])
   if u[0] == "pow": return "(UPow (%d)%%Z)" % u[1]
-  return {"int": "UInt", "copy": "UCopy", "pos": "UPos", "neg": "UNeg", "add0": "UAdd0", "mul1": "UMul1", "poly": "UPoly"}[u[0]]
+  return {"int": "UInt", "copy": "UCopy", "pos": "UPos", "neg": "UNeg", "add0": "UAdd0", "mul1": "UMul1", "poly": "UPoly",
+          "rezero": "UPoly"}[u[0]]
 
 
 def op_lit(op):
@@ -155,7 +159,15 @@ def _pairs(rng, exact, n=None, lo=-3, hi=4):
   return [[k, _fr(rng.choice(pool))] for k in ks]
 
 
+ZK = ["default", "none", "int", "float", "frac", "false", "q"]
+
+
 def _new(rng, pairs, ty, kinds=("dict", "odict")):
+  op = _new0(rng, pairs, ty, kinds)
+  return op + [rng.choice(ZK) if rng.random() < 0.5 else "default"]
+
+
+def _new0(rng, pairs, ty, kinds=("dict", "odict")):
   ks = sorted(k for k, _ in pairs)
   if "list" in kinds and ks and ks[0] >= 0 and rng.random() < 0.5:
     d = dict((k, v) for k, v in pairs)
@@ -259,9 +271,10 @@ def gen_hist(tier, rng):
         base = _pairs(rng, exact, lo=-2, hi=3)
         ops.append(_new(rng, base, _types(rng, exact, [p[1] for p in base]), ("dict", "odict", "list"))); ns += 1
       elif r < 0.45 and ns < 6:
-        us = [u for u in UNOPS_ALL if exact or (u[0] != "int" and u != ["pow", -1])]   # floats: no division
-        ops.append(["un", rng.choice(us), rng.randrange(ns)]); ns += 1     # an integrate that raises adds no variable:
-        if ops[-1][1][0] == "int": ns -= 1; ops.pop()                      # keep the bookkeeping simple, no integrate here
+        us = [u for u in UNOPS_ALL if (u != ["pow", 0] if exact else (u[0] != "int" and u != ["pow", -1]))]
+        # non-exact palettes: no division; exact palettes: no p ** 0 (its Python int 1 must not reach integrate)
+        ops.append(["un", rng.choice(us), rng.randrange(ns)]); ns += 1     # an integrate that is refused (x^-1 term) adds
+        # no variable: later steps naming it are IndexError in the model and in the run alike (class (g))
       elif r < 0.55 and ns < 6:
         ops.append(["bin", rng.choice(BINOPS[:3]), rng.randrange(ns), rng.randrange(ns)]); ns += 1
       elif r < 0.75:
